@@ -15,14 +15,16 @@ RULE = ("special-purpose generator: scope trees of depth <= 5 (modules, submodul
         "statement, external subprograms, block data at top level; contained subprograms, internal subprograms and "
         "named/unnamed BLOCK constructs nested, BLOCKs placed inside IF, SELECT, block DO and non-block labelled DO); "
         "every scope declares random intrinsic-typed variables, some named like intrinsic functions (sin, max, len, "
-        "...), and USEs random modules; every execution part references intrinsic names with a legal argument count, "
+        "...), and USEs random modules (plain, ONLY lists mixing generic specs, names and renames, rename lists; local "
+        "names they introduce hide intrinsics like declarations); units and modules may hold interface blocks whose "
+        "bodies are scoping regions declaring dummy arguments named like intrinsics; every execution part references intrinsic names with a legal argument count, "
         "each reference tagged with a unique integer so that it can be found again. Ground truth by construction. "
         "Oracles: the forest read from SYMBOL_TABLES (lookup, children, parent, name, str) equals the scope tree "
         "(unnamed BLOCKs matched by position); each table holds exactly the declared symbols and used modules; a tagged "
         "reference is an Intrinsic_Function_Reference (and printed in upper case) iff no declaration of that name is "
         "visible in its own or a host scope; M-SCOPE: no duplicate live child, depth 0 afterwards. non-trivial = >=3 "
         "scopes and >=4 references; distinct by SHA-1 of source")
-ASSUMPTIONS = ["shadowing names are declared with intrinsic types only, as the property states", "interface bodies and derived types are not generated here"]
+ASSUMPTIONS = ["shadowing names are declared with intrinsic types only, as the property states", "derived types are not generated here"]
 DECIDING_MONITORS = ("references_checked", "tables_checked")
 
 SHADOW = [("sin", 1), ("cos", 1), ("max", 2), ("min", 2), ("abs", 1), ("sqrt", 1), ("len", 1), ("size", 1), ("mod", 2),
@@ -35,6 +37,7 @@ class Scope:
     def __init__(self, kind, name):
         self.kind, self.name = kind, name
         self.decls, self.uses, self.children = [], [], []
+        self.imports = set()
         self.table = kind not in ("blockdata",)
 
 
@@ -68,7 +71,7 @@ class Gen:
                     n = r.choice(SHADOW)[0]
                 else:
                     n = r.choice(PLAIN)
-                if n in sc.decls or n in names:
+                if n in sc.decls or n in names or n in sc.imports:
                     continue
                 names.append(n)
             if not names:
@@ -78,14 +81,82 @@ class Gen:
             self.emit(d, "%s :: %s" % (ty, ", ".join(ents)))
             sc.decls.extend(names)
 
+    def interfaces(self, sc, d):
+        """interface blocks whose bodies are scoping regions of their own: dummy arguments named like intrinsics are
+        declared there and must not leak into the host"""
+        r = self.r
+        if r.random() > 0.25:
+            return
+        gen = self.nm("gn") if r.random() < 0.4 else None
+        self.emit(d, "interface" + (" " + gen if gen else ""))
+        for _ in range(r.randint(1, 2)):
+            kind = r.choice(["subroutine", "function"])
+            name = self.nm("if")
+            body = Scope(kind, name)
+            sc.children.append(body)
+            self.nscopes += 1
+            dummies = []
+            for _ in range(r.randint(1, 3)):
+                n = r.choice(SHADOW)[0] if r.random() < 0.6 else r.choice(PLAIN)
+                if n not in dummies:
+                    dummies.append(n)
+            self.emit(d + 1, "%s %s(%s)" % (kind, name, ", ".join(dummies)))
+            for n in dummies:
+                self.emit(d + 2, "%s :: %s" % (r.choice(["integer", "real", "logical"]), n.upper() if r.random() < 0.2 else n))
+                body.decls.append(n)
+            if kind == "function" and r.random() < 0.5:
+                self.emit(d + 2, "real :: %s" % name)
+                body.decls.append(name.lower())
+            self.emit(d + 1, "end %s %s" % (kind, name))
+        self.emit(d, "end interface" + (" " + gen if gen and r.random() < 0.5 else ""))
+
     def uses(self, sc, d):
-        for _ in range(self.r.choice([0, 0, 1, 2])):
-            m = "mod_%d" % self.r.randint(1, 4)
-            c = self.r.random()
-            if c < 0.5:
+        """USE statements; local names they introduce (only-names, the local side of renames) go to sc.imports: they
+        hide an intrinsic of the same name like a declaration does, but are not symbols of the table"""
+        r = self.r
+        for _ in range(r.choice([0, 0, 1, 2])):
+            m = "mod_%d" % r.randint(1, 4)
+            c = r.random()
+            ext = lambda: "ext_%d" % r.randint(1, 9)  # noqa: E731
+            shadow = lambda: r.choice(SHADOW)[0]  # noqa: E731
+            spell = lambda n: n.upper() if r.random() < 0.2 else n  # noqa: E731
+            if c < 0.35:
                 self.emit(d, "use %s" % m)
+            elif c < 0.55:
+                self.emit(d, "use %s, only: %s" % (m, ext()))
+            elif c < 0.85:
+                # only-list: generic specs, plain names (some named like intrinsics), renames
+                items = []
+                for _ in range(r.randint(1, 4)):
+                    k = r.random()
+                    if k < 0.25:
+                        items.append(r.choice(["operator(.dot.)", "operator(+)", "assignment(=)", "operator(==)", "operator(.x.)"]))
+                    elif k < 0.55:
+                        n = shadow()
+                        if n in sc.decls:
+                            continue
+                        items.append(spell(n))
+                        sc.imports.add(n)
+                    elif k < 0.75:
+                        n = shadow()
+                        if n in sc.decls:
+                            continue
+                        items.append("%s => %s" % (spell(n), ext()))
+                        sc.imports.add(n)
+                    elif k < 0.9:
+                        items.append("loc_%d => %s" % (r.randint(1, 9), shadow()))     # hides nothing
+                    else:
+                        items.append(ext())
+                if not items:
+                    items = [ext()]
+                self.emit(d, "use %s, only: %s" % (m, ", ".join(items)))
             else:
-                self.emit(d, "use %s, only: ext_%d" % (m, self.r.randint(1, 9)))
+                n = shadow()
+                if n in sc.decls:
+                    self.emit(d, "use %s" % m)
+                else:
+                    self.emit(d, "use %s, %s => %s" % (m, spell(n), ext()))
+                    sc.imports.add(n)
             if m not in sc.uses:
                 sc.uses.append(m)
 
@@ -156,7 +227,7 @@ class Gen:
         self.emit(d, (name + ": " if name else "") + "block")
         self.uses(sc, d + 1)
         self.decls(sc, d + 1, visible)
-        vis = visible | set(sc.decls)
+        vis = visible | set(sc.decls) | sc.imports
         self.exec_part(sc, d + 1, vis, depth_left)
         self.emit(d, "end block" + (" " + name if name else ""))
 
@@ -175,7 +246,8 @@ class Gen:
         self.emit(d, "%s %s(%s)" % (kind, name, r.choice(["", "va", "va, vb"])) if kind != "program" else "program " + name)
         self.uses(sc, d + 1)
         self.decls(sc, d + 1, visible)
-        vis = visible | set(sc.decls)
+        self.interfaces(sc, d + 1)
+        vis = visible | set(sc.decls) | sc.imports
         self.exec_part(sc, d + 1, vis, depth_left)
         if allow_contains and depth_left > 0 and r.random() < 0.45:
             self.emit(d + 1, "contains")
@@ -199,7 +271,8 @@ class Gen:
                 self.emit(0, ("module %s" % name) if k == "module" else ("submodule (par_m) %s" % name))
                 self.uses(sc, 1)
                 self.decls(sc, 1, set())
-                vis = set(sc.decls)
+                self.interfaces(sc, 1)
+                vis = set(sc.decls) | sc.imports
                 if r.random() < 0.8:
                     self.emit(1, "contains")
                     for _ in range(r.randint(1, 2)):
@@ -224,7 +297,7 @@ class Gen:
                 top.append(sc)
                 self.nscopes += 1
                 self.decls(sc, 0, set())
-                vis = set(sc.decls)
+                vis = set(sc.decls) | sc.imports
                 self.exec_part(sc, 0, vis, 2)
                 self.emit(0, "end")
             else:
